@@ -8,4 +8,8 @@ CLAIMS = {
   "note": CORR + "Print Assumptions: closed under the global context except the kernel's primitive float/int63 operations for tune_roundtrip. Python's float arithmetic is assumed IEEE binary64 round-to-nearest-even (checked bit-exactly against PrimFloat on every run).",
   "technique": "Coq proof (finite-domain vm_compute + induction + lia) with exhaustive model/implementation correspondence"},
 }
+CLAIMS["C07"] = {
+  "text": "Theorems (Props/C07.v), all sizes: get_path_follows (a chain present in the link table is returned exactly, in order), get_path_total (for ANY table: never out of fuel, result is a bounded in-range path from the start sector or one of two reported errors), akai_decode_total (AKAI SAT decoding of any table terminates within 2*size+2 inner steps; potential-function proof), roland_decode_total / roland_get_file_total (after the D2 fix). Chain resolution through the DECODED AKAI table is proved only as a bounded theorem (all tables of <= 4 words, enumerated inside Coq; akai_decode_chain_upto_4_partial); the unbounded statement is kept visible as akai_decode_chain_statement and is carried by the exhaustive correspondence run (all tables <= 4 quick / <= 5 thorough words + sampled 5-7 and real-size tables) against an independent oracle. D4 and D11 are proved as _refuted theorems and listed as known findings.",
+  "note": CORR + "All property theorems are closed under the global context. Table words are assumed non-negative (16-bit fields).",
+  "technique": "Coq proof (induction on fuel with a potential function; bounded enumeration by vm_compute where stated) with exhaustive small-scope model/implementation correspondence"}
 NOT_YET = {}
